@@ -410,6 +410,18 @@ func FamilyCustom(thorough bool) []*Conv {
 			Spec:      &Spec{Custom: map[string]string{"PFXA→PFXB": "CONVMETHODHelper"}},
 		})
 	}
+	// ... but only the block's own variables are left out: a function of *another* package that merely shares its
+	// bare name with a variable of the block is a custom function like any other
+	for _, pos := range []struct{ name, src, tgt string }{{"field", "struct{ V pfxext.A; S string }", "struct{ V pfxext.B; S string }"}, {"elem", "[]pfxext.A", "[]pfxext.B"}} {
+		out = append(out, &Conv{
+			ID: "custom/extend_regex_external_function_named_like_variable/" + pos.name + "/variable", Family: "custom", Format: "variable", Solo: true,
+			Params: "source " + pos.src, Results: pos.tgt,
+			Aux:       map[string]string{"pfxext": "package pfxext\n\ntype A int\ntype B int\n\nfunc CONVMETHOD(a A) B { return 0 }\nfunc CONVMETHODFlag(f bool) bool { return f }\n"},
+			Imports:   []string{`pfxext "corpus/GRP/pfxext"`},
+			ConvLines: []string{"extend corpus/GRP/pfxext:CONVMETHOD.*"},
+			Spec:      &Spec{Custom: map[string]string{"A→B": "CONVMETHOD", "bool→bool": "CONVMETHODFlag"}},
+		})
+	}
 	return out
 }
 
